@@ -318,7 +318,11 @@ OnEmit0(c, m, ev) ==
                                                      "C10:refused-although-capacity">> >>)
         IN  [m1 EXCEPT !.terminal = ev.stop, !.termk = ev.k, !.termcause = ev.cause, !.termt = ev.t]
 
-OnEmit(c, m, ev) == LET m1 == OnEmit0(c, m, ev) IN [m1 EXCEPT !.emits = Append(m.emits, EmitRec(ev))]
+\* (optag: the harness adds this field when the operation tag is neither the name the caller gave
+\* nor, for a decorated function, that function's own name)
+OnEmit(c, m, ev) ==
+    LET m1 == V(OnEmit0(c, m, ev), "optag" \notin DOMAIN ev, "C14:operation-tag-names-something-else")
+    IN  [m1 EXCEPT !.emits = Append(m.emits, EmitRec(ev))]
 
 \* execute(capture_timeline=True): the captured timeline is the metric/log stream
 OnTimeline(c, m, ev) ==
